@@ -1,9 +1,10 @@
 #!/bin/bash
 # Build the whole framework from files on disk only (offline).
 set -e
-cd /verif
+HERE="$(cd "$(dirname "$0")" && pwd)"
+cd "$HERE"
 export CARGO_NET_OFFLINE=true
 ./sim/gen_shadow.sh
 ( cd sim && cargo build --release --offline 2>&1 | tail -3 )
 # loom models (the crate's own test target under --cfg loom --cfg penguin_rs_verif)
-( cd /repo && RUSTFLAGS="--cfg loom --cfg penguin_rs_verif" CARGO_TARGET_DIR="$(dirname "$0")/loom-target" cargo test -p penguin-mux --lib --release --offline --no-run 2>&1 | tail -2 )
+( cd /repo && RUSTFLAGS="--cfg loom --cfg penguin_rs_verif" CARGO_TARGET_DIR="$HERE/loom-target" cargo test -p penguin-mux --lib --release --offline --no-run 2>&1 | tail -2 )
